@@ -20,7 +20,7 @@ RULE["C18"] += "  Also: linear user chains 8-24 deep and chains of 1100-5200 uni
 REQUIRED = {"C18": {"triple-checked": 64, "user-chain-checked": 300, "named-ratio": 3, "sonar-pulse": 400, "sonar-analog": 400, "sonar-user-defined-output-unit": 100,
                     "pressure-positive": 400, "pressure-floor": 20, "pressure-never-raises": 400, "pressure-vcc-zero": 5,
                     "calibrate-roundtrip": 300, "user-chain-deeper-than-10": 100, "user-chain-deeper-than-1000": 10, "sonar-same-raw-reading-as-previous-sonar": 300}}
-ASSUMPTIONS = {"C18": ["results whose exact rational value lies outside [1e-290, 1e290] are not compared (overflow/underflow is 'floating-point rounding')",
+ASSUMPTIONS = {"C18": ["results whose exact rational value lies outside [1e-290, 1e290] are not compared (overflow/underflow is 'floating-point rounding'); the same holds when the value expressed in the chain's ultimate base unit - through which every conversion goes - leaves that range (a chain of 108 nested 1/1000 sub-units)",
                        "Counter.getPeriod has no simulator setter: the driver's counter attribute is replaced by a stub with getPeriod(), as the repository's own test does"]}
 
 F = {"meter": Fraction(1), "centimeter": Fraction(1, 100), "foot": Fraction("0.3048"), "inch": Fraction("0.3048") / 12}
@@ -95,7 +95,8 @@ def check_convert(acc, U, a: Chain, b: Chain, x, case, key_prefix="C18/convert")
         acc.violation(key_prefix + "-raised", f"convert({a.desc}->{b.desc}, {x!r}) raised {ex!r}", case, {})
         return None
     exp = Fraction(x) * a.factor / b.factor
-    if not _in_range(exp):
+    if not _in_range(exp) or not _in_range(Fraction(x) * a.factor):
+        # (also when the value expressed in the ultimate base unit, through which every conversion goes, leaves the range)
         acc.ev("dont-care-out-of-double-range")
         return got
     acc.checks += 1
@@ -142,6 +143,16 @@ def run_units_case(acc, U, case):
     # random user-defined chains (same root only)
     for _ in range(case.get("reps", 12)):
         a = rng.choice(chains) if not case.get("deep_only") else rng.choice(chains[-3:] + chains[:4])
+        if case.get("deep_only") and _ % 2:
+            same = [c for c in chains if c.root == a.root]
+            # neighbours in the chain, and the unit itself: results of ordinary size whatever the depth
+            b = rng.choice([c for c in same if abs(c.depth - a.depth) <= 2])
+            x = rng.uniform(-1e6, 1e6)
+            got = check_convert(acc, U, a, b, x, case)
+            acc.ev("deep-chain-neighbours")
+            if max(a.depth, b.depth) > 1000:
+                acc.ev("user-chain-deeper-than-1000")
+            continue
         same = [c for c in chains if c.root == a.root]
         b = rng.choice(same)
         c = rng.choice(same)
@@ -159,7 +170,7 @@ def run_units_case(acc, U, case):
         if max(a.depth, b.depth) > 1000:
             acc.ev("user-chain-deeper-than-1000")
         e = Fraction(x) * a.factor / b.factor
-        if not _in_range(e) or not _in_range(e * k):
+        if not _in_range(e) or not _in_range(e * k) or not _in_range(Fraction(x) * a.factor) or not _in_range(Fraction(x + y) * a.factor * k):
             continue
         tol = 32 * (a.depth + b.depth + c.depth + 2)
         acc.checks += 4
@@ -378,6 +389,14 @@ def run_shard(spec):
                 parent = 4 + j
             vd = {"mode": "units", "kind": "chains", "cseed": rng.randrange(1 << 30), "plan": plan, "reps": 8, "deep_only": True}
             run_units_case(acc, U, vd)
+        # 120 nested 1/1000 sub-units: the factor to the ultimate base is far below the smallest double, conversions between
+        # neighbours (and of a unit to itself) are perfectly ordinary numbers
+        parent, plan = 0, []
+        for j in range(120):
+            plan.append([parent, 1e-3])
+            parent = 4 + j
+        run_units_case(acc, U, {"mode": "units", "kind": "chains", "cseed": rng.randrange(1 << 30), "plan": plan, "reps": 10,
+                                "deep_only": True})
         recent = []
         for i in range(spec["n"]):
             case = {"mode": "units", "kind": "chains", "cseed": rng.randrange(1 << 30)}
